@@ -112,7 +112,7 @@ func opRepeat(w *World, st *Step) execResult {
 	mode := decodeStr(a[2])
 	d := decodeInt(a[3])
 	t := w.T(st.Op.H)
-	given := append([]int{}, reps...)
+	given := w.own("Repeat counts", reps)
 	var calcShape tensor.Shape
 	var calcErr error
 	if w.Cfg.Calc {
